@@ -70,6 +70,7 @@ func vfPSMake(scn string) (func(), func(*vsched.Exec) (string, *vsched.Violation
 			raw = func(topic string, data []byte) { c.Publish("frugal."+topic, data) }
 		} else {
 			c := fakestomp.NewConn()
+			c.FailAcks = cfg["ack"] == "fail"
 			st.stomp = c
 			sub = newStompFSubscriberTransport(c, "", false)
 			if cfg["s2"] == "1" {
@@ -351,6 +352,11 @@ func init() {
 				}
 			}
 			out = append(out, "t=nats,w=2,m=V.F.V,u=none,s2=1", "t=nats,w=2,m=F.V.F,u=1,s2=1")
+			// long runs of valid messages, with working and with failing acknowledgements (STOMP) and
+			// with malformed ones in between
+			long := strings.TrimSuffix(strings.Repeat("V.", 12), ".")
+			out = append(out, "t=stomp,w=1,m=V.V.V.V.V.V,u=none", "t=stomp,w=1,m="+long+",u=none,ack=fail", "t=nats,w=1,m="+long+",u=none",
+				"t=stomp,w=1,m=V.M3.V.MV.V.MH.V.M0.V.MVL.V.MHL.V,u=none,ack=fail", "t=nats,w=1,m=V.M3.V.MV.V.MH.V.M0.V.MVL.V.MHL.V,u=none")
 			if tier == "thorough" {
 				for _, t := range []string{"nats", "stomp"} {
 					for _, s := range []string{"V.V.V.V", "V.M0.V.V", "V.V.M3.V", "MH.V.F.V", "V.MV.V.V"} {
@@ -365,6 +371,9 @@ func init() {
 		},
 		Make: vfPSMake,
 		Bound: func(tier, scn string) (int, bool) {
+			if strings.Count(scn, ".") >= 8 {
+				return 0, true // long sequences: no deviations, only the free choices
+			}
 			if tier == "thorough" {
 				return 3, true
 			}
